@@ -34,3 +34,57 @@ Proof.
   - unfold spec_occlusion. apply map2_select. exact Hi.
   - intros x K. apply Hx. eapply select_in; [|exact K]. intros i Hin. apply Hi; exact Hin.
 Qed.
+
+(* ---- the same for the gradient methods, Integrated Gradients and the Sobol / HSIC explain loop ---- *)
+From Xpl Require C01.Model C01.Spec C01.Proofs C04.Model C04.Spec C04.Proofs C08.Model C08.Spec C08.Proofs.
+
+Theorem saliency_select (grad : list Qc -> list Qc -> list Qc) k r bs bs' xs ts idx dx dt :
+  C01.Spec.shape_preserving grad -> C01.Spec.kind_ok k -> bs_ok bs -> bs_ok bs' ->
+  (forall x, In x xs -> length x = C01.Model.kind_size k) -> length dx = C01.Model.kind_size k ->
+  (forall i, In i idx -> (i < length xs)%nat /\ (i < length ts)%nat) ->
+  C01.Model.saliency grad k r bs (select idx xs dx) (select idx ts dt)
+  = select idx (C01.Model.saliency grad k r bs' xs ts) (C01.Spec.spec_reduce k r (C01.Spec.spec_saliency grad dx dt)).
+Proof.
+  intros Hg Hk Hb Hb' Hx Hdx Hi. rewrite !C01.Proofs.saliency_correct; try assumption.
+  - apply (map2_select (fun x t => C01.Spec.spec_reduce k r (C01.Spec.spec_saliency grad x t))). exact Hi.
+  - intros x K. unfold select in K. apply in_map_iff in K as [i [<- Hin]].
+    destruct (Hi i Hin) as [H1 _]. apply Hx. apply nth_In. exact H1.
+Qed.
+
+Theorem gradient_input_select (grad : list Qc -> list Qc -> list Qc) k r bs bs' xs ts idx dx dt :
+  C01.Spec.shape_preserving grad -> C01.Spec.kind_ok k -> bs_ok bs -> bs_ok bs' ->
+  (forall x, In x xs -> length x = C01.Model.kind_size k) ->
+  (forall i, In i idx -> (i < length xs)%nat /\ (i < length ts)%nat) ->
+  C01.Model.gradient_input grad k r bs (select idx xs dx) (select idx ts dt)
+  = select idx (C01.Model.gradient_input grad k r bs' xs ts) (C01.Spec.spec_reduce k r (C01.Spec.spec_gradient_input grad dx dt)).
+Proof.
+  intros Hg Hk Hb Hb' Hx Hi. rewrite !C01.Proofs.gradient_input_correct; try assumption.
+  - apply (map2_select (fun x t => C01.Spec.spec_reduce k r (C01.Spec.spec_gradient_input grad x t))). exact Hi.
+  - intros x K. unfold select in K. apply in_map_iff in K as [i [<- Hin]].
+    destruct (Hi i Hin) as [H1 _]. apply Hx. apply nth_In. exact H1.
+Qed.
+
+Theorem ig_select (grad : list Qc -> list Qc -> list Qc) n m bs bs' bv xs ts idx dx dt :
+  C04.Spec.bs_ok bs -> C04.Spec.bs_ok bs' -> (2 <= m)%nat -> xs <> [] -> idx <> [] ->
+  (forall x, In x xs -> length x = n) -> C04.Spec.grad_shape n grad ->
+  (forall i, In i idx -> (i < length xs)%nat /\ (i < length ts)%nat) ->
+  C04.Model.ig grad n m bs bv (select idx xs dx) (select idx ts dt)
+  = select idx (C04.Model.ig grad n m bs' bv xs ts) (C04.Spec.spec_ig_one grad n m bv dx dt).
+Proof.
+  intros Hb Hb' Hm Hne Hidx Hx Hg Hi. rewrite !C04.Proofs.ig_correct; try assumption.
+  - unfold C04.Spec.spec_ig. apply (map2_select (C04.Spec.spec_ig_one grad n m bv)). exact Hi.
+  - destruct idx; [congruence | discriminate].
+  - intros x K. unfold select in K. apply in_map_iff in K as [i [<- Hin]].
+    destruct (Hi i Hin) as [H1 _]. apply Hx. apply nth_In. exact H1.
+Qed.
+
+Theorem gsa_select (score : list Qc -> list Qc -> Qc) (est : list Qc -> list Qc) pf g H W C bs bs' masks xs ts idx dx dt :
+  C08.Spec.bs_valid bs -> C08.Spec.bs_valid bs' ->
+  (forall i, In i idx -> (i < length xs)%nat /\ (i < length ts)%nat) ->
+  C08.Model.gsa_explain score est pf g H W C bs masks (select idx xs dx) (select idx ts dt)
+  = select idx (C08.Model.gsa_explain score est pf g H W C bs' masks xs ts)
+           (est (C08.Spec.perturbed_scores score (pf dx) g H W C masks dx dt)).
+Proof.
+  intros Hb Hb' Hi. rewrite !C08.Proofs.gsa_explain_correct by assumption.
+  apply (map2_select (fun x t => est (C08.Spec.perturbed_scores score (pf x) g H W C masks x t))). exact Hi.
+Qed.
